@@ -424,6 +424,10 @@ class Gen:
             two(W, [F('a', u(2), [('s', 0), ('s', 3)], count=3, stride=1, lst=True), F('b', u(W - 6), [('r', 6, W - 1)]),
                     F('c', {'k': 'bool'}, [('s', 5)])], 'array-interleaved-disjoint')
             two(W, [F('a', u(4), [('r', 0, 2), ('r', 2, 2)], lst=True), F('b', u(W - 3), [('r', 3, W - 1)])], 'list-names-bit-twice')
+            two(W, [F('a', u(4), [('r', 0, 2), ('r', 2, 2)], count=2, stride=4, lst=True), F('b', u(W - 8), [('r', 8, W - 1)])] if W > 8 else
+                   [F('a', u(4), [('r', 0, 2), ('r', 2, 2)], count=2, stride=4, lst=True)], 'array-element-names-bit-twice')
+            two(W, [F('a', u(3), [('s', 1), ('s', 0), ('s', 1)], count=2, stride=2, lst=True), F('b', u(W - 4), [('r', 4, W - 1)])],
+                'array-element-names-bit-twice-nonadjacent')
             two(W, [F('a', {'k': 'bool'}, [('s', 0)], count=h), F('b', u(W - h), [('r', h, W - 1)])], 'bool-array')
             two(W, [F('a', {'k': 'bool'}, [('s', 0)], count=h), F('b', u(W - h + 1), [('r', h - 1, W - 1)])], 'bool-array-overlaps-field')
             two(W, [F('a', u(h), [('r', 0, h - 1)]), F('b', u(W - h), [('r', h, W - 1)], acc='')], 'field-without-access')
@@ -948,6 +952,15 @@ class Gen:
             if c + 8 <= 128:
                 fields.append(F('q', u(8), [('r', c, c + 7)]))
                 fields.append(F('qi', {'k': 'i', 'n': 8}, [('r', c, c + 7)]))
+            # fields that straddle bit c (start below, end at or above): native and arbitrary widths, signed, enum, list piece
+            for nm, ty, n in (('x2', u(2), 2), ('x8', u(8), 8), ('xi8', {'k': 'i', 'n': 8}, 8), ('x16', u(16), 16), ('x5', u(5), 5)):
+                lo = c - n // 2
+                if lo >= 0 and lo + n <= 128:
+                    fields.append(F(nm, ty, [('r', lo, lo + n - 1)]))
+            if c - 4 >= 8 and c + 4 <= 128:
+                fields.append(F('xe8', self.custom_enum(8), [('r', c - 4, c + 3)]))
+                fields.append(F('xl', u(16), [('r', 0, 7), ('r', c - 4, c + 3)], lst=True))
+                fields.append(F('xa', u(8), [('r', c - 4 - 8, c - 4 - 1)], count=2))
             if 2 <= c and c + 2 <= 128:
                 fields.append(F('l', u(4), [('r', 0, 1), ('r', c, c + 1)], lst=True))
                 fields.append(F('lr', u(4), [('r', c, c + 1), ('r', 0, 1)], lst=True))
@@ -991,7 +1004,7 @@ class Gen:
                      ('enum3', self.custom_enum(3), 3), ('enum8', self.custom_enum(8), 8), ('nested4', self.custom_nested(4), 4),
                      ('i16', {'k': 'i', 'n': 16}, 16)]
             for kname, ty, n in kinds:
-                places = [('top', W)] + ([('across64', 64 + n)] if W > 64 + 2 * n else [])
+                places = [('top', W)] + ([('across64', 64 + (n + 1) // 2)] if W > 64 + 2 * n else [])     # straddling bit 63/64
                 for pname, end in places:
                     fields = []
                     lo = end - n
